@@ -481,6 +481,74 @@ pub fn crafted_short_crc() -> Vec<Vec<u8>> {
     }
     out
 }
+/// Overwrite the data of some octet strings of a valid file with content that matters to the *transport* layer (zeros
+/// directly before a literal 1b1b1b1b, look-alikes of the start / end sequence, 0x1b runs of every length, zero runs),
+/// then recompute the message checksums: still a valid file with the same structure. Returns false if nothing fitted.
+pub fn wire_sensitive(x: &mut Vec<u8>, rng: &mut Rng) -> bool {
+    const CHUNKS: [&[u8]; 12] = [
+        &[0x00], &[0x00, 0x00], &[0x00, 0x00, 0x00, 0x00, 0x00], &[0x1b, 0x1b, 0x1b, 0x1b], &[0x1b], &[0x1b, 0x1b, 0x1b],
+        &[0x1a], &[0x01, 0x01, 0x01, 0x01], &[0x1b, 0x1b, 0x1b, 0x1b, 0x1a, 0x00], &[0x1b, 0x1b, 0x1b, 0x1b, 0x1b], &[0x55], &[0x1a, 0x03],
+    ];
+    let mut any = false;
+    for e in all_elems(x) {
+        let (a, b) = (e.pos + e.tlf_len, e.end);
+        if e.ty != 0 || b > x.len() || b < a + 5 || e.depth < 1 || rng.chance(1, 3) {
+            continue;
+        }
+        let mut i = a;
+        while i < b {
+            let c = CHUNKS[rng.below(CHUNKS.len())];
+            for &v in c {
+                if i < b {
+                    x[i] = v;
+                    i += 1;
+                }
+            }
+        }
+        any = true;
+    }
+    if any {
+        fix_crcs(x);
+    }
+    any
+}
+/// valid files in which one octet string is very long (lengths around 2^12, 2^16 and 2^17): the signature of a close
+/// response, the bytes value of a list entry, the server id of an open response; length fields need 3..6 TLF bytes
+pub fn long_string_files(lens: &[usize]) -> Vec<Vec<u8>> {
+    let mut out = vec![];
+    let finish = |msg: &mut Vec<u8>| {
+        let d = crc16(msg);
+        msg.extend([0x63, d as u8, (d >> 8) as u8, 0x00]);
+    };
+    for (n, &l) in lens.iter().enumerate() {
+        let s: Vec<u8> = (0..l).map(|k| (k * 7 + 3 + n) as u8).collect();
+        for kind in 0..3 {
+            let mut m;
+            match kind {
+                0 => {
+                    m = hex("76 02 0c 62 00 62 00 72 63 02 01 71");
+                    m.extend(tlf(0, l as u64, 0, false));
+                    m.extend(&s);
+                }
+                1 => {
+                    m = hex("76 02 0b 62 00 62 00 72 63 07 01 77 01 02 53 01 01 71 77 02 ab 01 01 01 01");
+                    m.extend(tlf(0, l as u64, 0, false));
+                    m.extend(&s);
+                    m.extend(hex("01 01 01"));
+                }
+                _ => {
+                    m = hex("76 02 0a 62 00 62 00 72 63 01 01 76 01 01 02 31");
+                    m.extend(tlf(0, l as u64, 0, false));
+                    m.extend(&s);
+                    m.extend(hex("01 01"));
+                }
+            }
+            finish(&mut m);
+            out.push(m);
+        }
+    }
+    out
+}
 fn super_tlf(ty: u8, len: u64) -> Vec<u8> {
     tlf(ty, len, 0, true)
 }
